@@ -8,6 +8,7 @@ import Mathlib.LinearAlgebra.Matrix.Notation
 import Mathlib.Tactic.Abel
 import Mathlib.Tactic.FinCases
 import Mathlib.Tactic.NormNum
+import BronVerif.Lemmas.SignAlgSpec
 /-!
 # C03 — key generation ends with one consistent, reconstructible key (property theorems)
 
@@ -89,6 +90,21 @@ theorem pedersen_then_feldman_consistent (M : Matrix ρ δ F) (r r' : δ → F) 
   refine ⟨?_, lift_mulVec M r g j, fun k => add_sub_cancel_right _ _⟩
   rw [lift_mulVec, lift_mulVec, ← Finset.sum_add_distrib]
   exact Finset.sum_congr rfl fun k _ => by rw [smul_add]
+
+
+/-! ### about the executable model (`Model/SignAlg.rowLiftOk`, the check the driver runs per share row) -/
+
+section model
+open BronVerif.SignAlg BronVerif.LinAlg BronVerif.Lemmas.SignAlgSpec
+variable {F' G' : Type} [Field F'] [DecidableEq F'] [AddCommGroup G'] [Module F' G'] [DecidableEq G']
+
+/-- `model_share_check_iff`: against the verification vector `V = r • g` of a dealt column `r`, the
+driver's row check accepts a scalar `s` for MSP row `row` iff `s` is the dealt entry `⟨row, r⟩`
+(soundness needs the generator hypothesis). -/
+theorem model_share_check_iff (g : G') (hg : ∀ a : F', a • g = 0 → a = 0) (row r : List F') (s : F') :
+    rowLiftOk g row (r.map (· • g)) s = true ↔ s = dot row r :=
+  ⟨rowLiftOk_only_honest g hg row r s, fun h => h ▸ rowLiftOk_honest g row r⟩
+end model
 
 /-! ### non-vacuity: 2-of-2 additive MSP over ℚ with two dealers -/
 
